@@ -28,6 +28,18 @@ def find_function(relpath, qualname):
       if isinstance(child, (ast.FunctionDef, ast.ClassDef, ast.AsyncFunctionDef)) and child.name == p and child is not node:
         found = child
         break
+    if found is None and isinstance(node, (ast.Module, ast.ClassDef)):
+      # `name = lambda args: expr` at module/class level: the same function, written as a lambda
+      for child in node.body:
+        if isinstance(child, ast.Assign) and len(child.targets) == 1 and isinstance(child.targets[0], ast.Name) \
+           and child.targets[0].id == p and isinstance(child.value, ast.Lambda):
+          lam = child.value
+          found = ast.FunctionDef(name=p, args=lam.args, body=[ast.Return(value=lam.body, lineno=lam.lineno, col_offset=0)],
+                                  decorator_list=[], returns=None, type_comment=None, lineno=child.lineno, col_offset=child.col_offset,
+                                  end_lineno=child.end_lineno, end_col_offset=child.end_col_offset)
+          if hasattr(ast, 'TypeVar'):
+            found.type_params = []
+          break
     if found is None:
       raise LookupError(f'{relpath}::{qualname}: component {p!r} not found')
     node = found
